@@ -31,6 +31,11 @@ ASSUMPTIONS = ["Python's base64 / quopri / urllib / json / struct modules are th
                "JSON integers are generated below 2^53 unless testing the big-integer class explicitly"]
 
 PRELUDE = r"""
+(define (gen-bytes n seed) (let ((b (make-bytevector n 0))) (let lp ((i 0) (x seed)) (if (= i n) b (begin (bytevector-u8-set! b i (modulo (quotient x 7) 256)) (lp (+ i 1) (modulo (+ (* x 1103515245) 12345) 2147483648)))))))
+(define (b64-stream-encode bv) (let ((in (open-input-bytevector bv)) (out (open-output-bytevector))) (base64-encode in out) (get-output-bytevector out)))
+(define (b64-stream-decode bv) (let ((in (open-input-bytevector bv)) (out (open-output-bytevector))) (base64-decode in out) (get-output-bytevector out)))
+(define (wrap-lines bv cols nl) (let ((out (open-output-bytevector)) (n (bytevector-length bv))) (let lp ((i 0)) (if (>= i n) (get-output-bytevector out) (let ((e (min n (+ i cols)))) (write-bytevector bv out i e) (if (< e n) (write-bytevector nl out)) (lp e))))))
+(define (bv-sum b) (let lp ((i 0) (a 0) (x 0)) (if (= i (bytevector-length b)) (list (bytevector-length b) a x) (lp (+ i 1) (modulo (+ a (* (+ i 1) (bytevector-u8-ref b i))) 1000000007) (+ x (bytevector-u8-ref b i))))))
 (define (bvl b) (let lp ((i (- (bytevector-length b) 1)) (acc '())) (if (< i 0) acc (lp (- i 1) (cons (bytevector-u8-ref b i) acc)))))
 (define (cps s) (map char->integer (string->list s)))
 (define (out id x) (write id) (write-string " ") (write x) (newline))
@@ -211,6 +216,43 @@ def parse_cps(s):
     return "".join(chr(int(x)) for x in m.group(1).split()) if m else None
 
 
+def gen_bytes_py(n, seed):
+    out = bytearray()
+    x = seed
+    for _ in range(n):
+        out.append((x // 7) % 256)
+        x = (x * 1103515245 + 12345) % 2147483648
+    return bytes(out)
+
+
+def bv_sum_py(b):
+    a = 0
+    for i, v in enumerate(b):
+        a = (a + (i + 1) * v) % 1000000007
+    return "(%d %d %d)" % (len(b), a, sum(b))
+
+
+def b64stream_exprs(case):
+    x = "(gen-bytes %d %d)" % (case["n"], case["seed"])
+    enc = "(base64-encode-bytevector %s)" % x
+    src = enc if not case["cols"] else "(wrap-lines %s %d (bytevector %s))" % (enc, case["cols"], case["nl"])
+    return ["(bv-sum (b64-stream-encode %s))" % x, "(bv-sum (b64-stream-decode %s))" % src, "(bv-sum (base64-decode-bytevector %s))" % src]
+
+
+def b64stream_judge(case):
+    data = gen_bytes_py(case["n"], case["seed"])
+
+    def judge(o):
+        if o[0].strip() != bv_sum_py(base64.b64encode(data)):
+            return ("base64-stream/encode-differs-from-python", "port-to-port base64-encode of %d bytes: (length checksum sum) = %s, python %s" % (len(data), o[0][:80], bv_sum_py(base64.b64encode(data))))
+        if o[1].strip() != bv_sum_py(data):
+            return ("base64-stream/decode-roundtrip", "port-to-port base64-decode of the %s encoding of %d bytes gives (length checksum sum) = %s, expected %s"
+                    % (("%d-column wrapped" % case["cols"]) if case["cols"] else "unwrapped", len(data), o[1][:80], bv_sum_py(data)))
+        if o[2].strip() != bv_sum_py(data):
+            return ("base64/decode-wrapped", "base64-decode-bytevector of the wrapped text gives %s, expected %s" % (o[2][:80], bv_sum_py(data)))
+    return judge
+
+
 def range_expr(case):
     fn, data, start, end = case["fn"], case["data"], case["start"], case["end"]
     tail = " %d" % start + ("" if end is None else " %d" % end)
@@ -267,7 +309,7 @@ EXCL = [0]
 
 def gen_cases(rng, n, b, known=()):
     for _ in range(n):
-        kind = rng.choice(["b64", "b64", "b64s", "qp", "qps", "uri", "uri", "json", "json", "json-text", "acc", "acc", "acc-oob", "u160", "hostile", "hostile", "utf8", "range", "range"])
+        kind = rng.choice(["b64", "b64", "b64s", "qp", "qps", "uri", "uri", "json", "json", "json-text", "acc", "acc", "acc-oob", "u160", "hostile", "hostile", "utf8", "range", "range", "b64stream"])
         if kind == "b64":
             x = rand_bytes(rng)
             case = {"codec": "base64-bytevector", "input": list(x)}
@@ -422,6 +464,15 @@ def gen_cases(rng, n, b, known=()):
                 elif got != "(error)":
                     return ("srfi160/out-of-range-not-rejected", "index %d of %d elements returned %s" % (k, len(vals), got[:100]))
             b.add(["(let ((v (%svector %s))) (list (%svector-ref v %d) (%svector->list v)))" % (typ, " ".join(map(str, vals)), typ, k, typ)], case, judge)
+        elif kind == "b64stream":
+            # the port-to-port codec works in chunks (3072 bytes in, 2964 characters out): lengths around the chunk sizes,
+            # decoder input also wrapped into lines of 60 / 64 / 76 columns with LF or CRLF
+            n = max(0, rng.choice([0, 1, 2047, 2048, 2223, 3072, 4446, 6144, 2964, 5928, 9216]) + rng.randrange(-3, 4))
+            seed = rng.randrange(1, 100000)
+            cols = rng.choice([0, 60, 64, 76, 4, 57])
+            nl = rng.choice(["10", "13 10"])
+            case = {"codec": "base64-stream", "n": n, "seed": seed, "cols": cols, "nl": nl}
+            b.add(b64stream_exprs(case), case, b64stream_judge(case))
         elif kind == "range":
             # optional start / end arguments of the byte-level converters: every combination around the bounds
             fn = rng.choice(["utf8->string", "string->utf8", "bytevector-copy", "bytevector-copy!"])
@@ -588,6 +639,8 @@ def make_judge(case):
         return judge
     if c == "range":
         return range_judge(case)
+    if c == "base64-stream":
+        return b64stream_judge(case)
     if c == "utf8":
         s_, a = case["input"], case["start"]
 
